@@ -34,7 +34,7 @@ STYLES = ['google', 'freeform', 'auto']
 def required_cells(tier):
     return ['agree:google', 'agree:freeform', 'agree:auto', 'feature:async', 'feature:method:prop',
             'feature:method:static', 'feature:method:cls', 'feature:method:wrapped', 'feature:top:deco',
-            'feature:top:main', 'feature:method:setter', 'feature:top:ctxmgr', 'feature:top:subclass', 'feature:module-dir-hook', 'feature:top:handler', 'feature:top:matcharm', 'feature:top:tryelse', 'feature:top:forbody', 'feature:method:setter_stacked', 'feature:method:getter_again', 'feature:top:notmain', 'feature:method:ctxmethod', 'feature:top:rewrap', 'feature:method:rewrapped', 'feature:method:private',
+            'feature:top:main', 'feature:method:setter', 'feature:top:ctxmgr', 'feature:top:subclass', 'feature:module-dir-hook', 'feature:top:handler', 'feature:top:matcharm', 'feature:top:tryelse', 'feature:top:forbody', 'feature:method:setter_stacked', 'feature:method:getter_again', 'feature:top:notmain', 'feature:method:ctxmethod', 'feature:top:rewrap', 'feature:method:rewrapped', 'feature:method:private', 'feature:top:odeco', 'feature:method:owrapped',
             'feature:encoding:utf-8', 'feature:encoding:utf-8-sig', 'feature:encoding:latin-1',
             'feature:wraps-aliased-imports-from-a-sibling']
 
